@@ -271,20 +271,22 @@ struct Sup {
     children: Arc<Mutex<Vec<((Option<String>, usize), u32)>>>,
     /// conc cases: stop a child as soon as it reports `started`
     stop_on_start: bool,
+    /// keep the `Mailbox` of every child heard of in the actor state (a supervisor holding references)
+    keep: bool,
 }
 
 impl Actor for Sup {
     type Arguments = ();
     type Error = u32;
-    type State = ();
+    type State = Vec<Mailbox<TestActor>>;
 
-    async fn pre_start(&self, _m: &Mailbox<Self>, (): ()) -> Result<(), u32> {
-        Ok(())
+    async fn pre_start(&self, _m: &Mailbox<Self>, (): ()) -> Result<Self::State, u32> {
+        Ok(vec![])
     }
 }
 
 impl Handler<SupervisionEvent<TestActor>> for Sup {
-    async fn handle(&self, _m: &Mailbox<Self>, ev: SupervisionEvent<TestActor>, _s: &mut ()) -> Result<(), u32> {
+    async fn handle(&self, _m: &Mailbox<Self>, ev: SupervisionEvent<TestActor>, st: &mut Self::State) -> Result<(), u32> {
         let k = match &ev {
             SupervisionEvent::ActorStarted(_) => 0,
             SupervisionEvent::ActorTerminated(_) => 1,
@@ -294,6 +296,9 @@ impl Handler<SupervisionEvent<TestActor>> for Sup {
         let key = (mb.name().map(str::to_string), mb.capacity().get());
         let child = self.children.lock().unwrap().iter().find(|c| c.0 == key).map(|c| c.1).unwrap_or(u32::MAX);
         self.log.push(self.id, Obs::Sup(k, child));
+        if self.keep {
+            st.push(mb.clone());
+        }
         if self.stop_on_start && k == 0 {
             mb.stop();
         }
@@ -608,7 +613,8 @@ impl Det {
                 self.name_monitor(a, &name_c, holder, &out);
                 out
             }
-            ["spawnsup", a, name, cap] => {
+            ["spawnsup", a, name, cap, rest @ ..] if rest.is_empty() || *rest == ["keep"] => {
+                let keep = !rest.is_empty();
                 let (Some(a), Some(cap)) = (num(a), cap.parse::<usize>().ok().and_then(NonZeroUsize::new)) else {
                     return "bad-op".into();
                 };
@@ -620,7 +626,7 @@ impl Det {
                 let ch = children.clone();
                 let cluster = self.cluster.as_ref().unwrap();
                 let mut sp = cluster
-                    .spawn(move || Sup { id: a, log, children: ch, stop_on_start: false }, ())
+                    .spawn(move || Sup { id: a, log, children: ch, stop_on_start: false, keep }, ())
                     .with_capacity(cap);
                 let name = if *name == "-" { None } else { Some(name.to_string()) };
                 if let Some(n) = &name {
@@ -730,6 +736,20 @@ impl Det {
                 };
                 self.stops_requested.insert(a);
                 r.to_string()
+            }
+            ["drop", a] => {
+                // the harness gives up its `Mailbox` (it keeps the `ActorHandle`)
+                match num(a).and_then(|a| self.actors.get_mut(&a)).map(|s| &mut s.slot) {
+                    Some(Slot::Test { mailbox, .. }) if mailbox.is_some() => {
+                        *mailbox = None;
+                        "ok".into()
+                    }
+                    Some(Slot::Sup { mailbox, .. }) if mailbox.is_some() => {
+                        *mailbox = None;
+                        "ok".into()
+                    }
+                    _ => "nomailbox".into(),
+                }
             }
             ["isclosed", a] => match num(a).and_then(|a| self.actors.get(&a)).map(|s| &s.slot) {
                 Some(Slot::Test { mailbox: Some(m), .. }) => m.is_closed().to_string(),
@@ -897,8 +917,10 @@ impl Det {
         let mut v = vec![];
         if let Some(ms) = self.gmembers.get(&g) {
             for a in ms.values() {
-                if let Some(m) = self.test_mailbox(*a) {
-                    v.push((*a, m.is_closed(), queued_of(&m), m.capacity().get()));
+                match self.test_mailbox(*a) {
+                    Some(m) => v.push((*a, m.is_closed(), queued_of(&m), m.capacity().get())),
+                    // the harness gave its handle away: this member cannot be inspected, no verdict
+                    None => v.push((*a, false, usize::MAX, 0)),
                 }
             }
         }
@@ -909,6 +931,9 @@ impl Det {
     /// to exactly one member iff some member is open and not full, otherwise it comes back as `Full` when a
     /// member is open (hence full) and `Closed` when none is; only closed members may be evicted.
     fn group_monitor(&mut self, g: u32, id: u32, out: &str, before: &[(u32, bool, usize, usize)], len_before: usize, len_after: usize) {
+        if before.iter().any(|x| x.2 == usize::MAX) {
+            return;
+        }
         let after = self.group_snapshot(g);
         let distinct = |v: &[(u32, bool, usize, usize)]| -> BTreeMap<u32, usize> { v.iter().map(|x| (x.0, x.2)).collect() };
         let (qb, qa) = (distinct(before), distinct(&after));
@@ -1034,6 +1059,7 @@ fn finish_det(d: &mut Det, ex: &mut Exec) {
     }
     // 2. resolve the spawn futures still pending, stop everything we can reach
     let ids: Vec<u32> = d.actors.keys().copied().collect();
+    let mut asked: BTreeSet<u32> = d.stops_requested.clone();
     for a in &ids {
         let s = d.actors.get_mut(a).unwrap();
         match &mut s.slot {
@@ -1048,8 +1074,17 @@ fn finish_det(d: &mut Det, ex: &mut Exec) {
                         }
                     }
                 }
+                if mailbox.is_none() && s.started {
+                    // the harness dropped its handle: a live named actor can still be reached through the registry
+                    if let Some(n) = &s.name {
+                        if let Some(m) = d.cluster.as_ref().unwrap().lookup::<TestActor, _>(n.clone()) {
+                            *mailbox = Some(m);
+                        }
+                    }
+                }
                 if let Some(m) = mailbox {
                     m.stop();
+                    asked.insert(*a);
                 }
             }
             Slot::Sup { .. } => {}
@@ -1071,6 +1106,7 @@ fn finish_det(d: &mut Det, ex: &mut Exec) {
             }
             if let Some(m) = mailbox {
                 m.stop();
+                asked.insert(*a);
             }
         }
     }
@@ -1092,6 +1128,7 @@ fn finish_det(d: &mut Det, ex: &mut Exec) {
                 Poll::Ready(_) => {
                     exited.insert(*a);
                 }
+                Poll::Pending if !asked.contains(a) => {} // unreachable for the harness: nobody asked it to stop
                 Poll::Pending => {
                     ex.fail("C19:actor-did-not-exit", format!("actor {a} stopped but its handle is pending, log {:?}", d.log.of(*a)));
                 }
@@ -1154,7 +1191,9 @@ fn finish_det(d: &mut Det, ex: &mut Exec) {
         let handled_by = seen_global.get(&c).copied();
         match slot.result.as_deref() {
             Some(r) if r.starts_with("reply") || r == "noreply" => {
-                if handled_by.is_none() {
+                // (a call routed by a group is answered NoReply without a handler when the channel holding its
+                // envelope is destroyed: the group's broker was the last sender)
+                if handled_by.is_none() && !(r == "noreply" && slot.target.is_none()) {
                     ex.fail("C19:reply-without-handler", format!("call {c} -> {r} but no handler ran"));
                 }
             }
@@ -1263,6 +1302,15 @@ fn exec_det(case: &Case) -> Exec {
     for line in &case.lines {
         let w: Vec<&str> = line.split_whitespace().collect();
         let out = if w.first() == Some(&"hist") { judge_hist(&w[1..]) } else { d.op(&w) };
+        // a call future that has its answer gives up the `Mailbox` it owns as soon as it is polled
+        for c in d.calls.values_mut() {
+            if let Some(f) = c.fut.as_mut() {
+                if let Poll::Ready(r) = poll_once(f.as_mut()) {
+                    c.result = Some(show_call(&r));
+                    c.fut = None;
+                }
+            }
+        }
         if let Some(t) = w.first() {
             ex.tag(format!("op:{t}"));
         }
@@ -1372,7 +1420,7 @@ fn run_conc(spec: &ConcSpec) -> Vec<String> {
         let (l, ch) = (log.clone(), children.clone());
         let r = block_on_timeout(
             cluster
-                .spawn(move || Sup { id: 1000, log: l, children: ch, stop_on_start: false }, ())
+                .spawn(move || Sup { id: 1000, log: l, children: ch, stop_on_start: false, keep: false }, ())
                 .with_capacity(NonZeroUsize::new(4096).unwrap())
                 .into_future(),
             LONG,
@@ -2183,7 +2231,7 @@ fn gen_det(rng: &mut Rng, n_ops: usize) -> Vec<String> {
     if rng.chance(1, 2) {
         let s = next_actor;
         next_actor += 1;
-        l.push(format!("spawnsup {s} {} 64", if rng.chance(1, 4) { "sup" } else { "-" }));
+        l.push(format!("spawnsup {s} {} 64{}", if rng.chance(1, 4) { "sup" } else { "-" }, if rng.chance(1, 3) { " keep" } else { "" }));
         l.push("run".into());
         l.push(format!("await {s}"));
         sups.push(s);
@@ -2226,7 +2274,8 @@ fn gen_det(rng: &mut Rng, n_ops: usize) -> Vec<String> {
             }
             73..=76 => l.push(format!("await {a}")),
             77..=82 => l.push(format!("lookup {}", rng.pick(&names))),
-            83..=84 => l.push(format!("isclosed {a}")),
+            83 => l.push(format!("isclosed {a}")),
+            84 => l.push(format!("drop {a}")),
             85..=88 => l.push(format!("exit {a}")),
             89..=99 => {
                 if groups.is_empty() || rng.chance(1, 8) {
